@@ -257,6 +257,10 @@ def _script(case: Dict[str, Any], res: CaseResult) -> None:
                     want = prog.ref_run(op["prog"], [prog.dec(a) for a in op.get("args", [])], prog.Ref())
                     if prog.foreign_objects(r.get("value")) or r.get("value") != want:
                         res.viol("built-dag-value", f"a DAG built while other threads were active returns {r.get('value')!r}, reference {want!r}" + tag)
+        # when everything is over the process-wide configuration is what the user set, and acts accordingly
+        now = tawazi.cfg.TAWAZI_EXECNODE_OUTSIDE_DAG_BEHAVIOR
+        if now != XNOutsideDAGCall(case.get("outside_behavior", "error")):
+            res.viol("configuration-changed", f"cfg.TAWAZI_EXECNODE_OUTSIDE_DAG_BEHAVIOR is {now!r} after the threads finished, the user had set {case.get('outside_behavior', 'error')!r}")
         res.evals = sum(len(o) for o in case["threads"])
         res.nontrivial = during_pause > 0
         res.cls("script", f"threads-{len(workers)}")
@@ -270,9 +274,17 @@ def _script(case: Dict[str, Any], res: CaseResult) -> None:
 
 
 def _stress(case: Dict[str, Any], res: CaseResult) -> None:
+    import tawazi
+    from tawazi.consts import XNOutsideDAGCall
+    from tawazi.errors import TawaziUsageError
+
     SP = case["shared"]
     shared = prog.build(SP, mc=case.get("mc", 2))
     shared.dag.setup()
+    cfg_before = tawazi.cfg.TAWAZI_EXECNODE_OUTSIDE_DAG_BEHAVIOR
+    outside = tawazi.xn(prog.make_body("outfn", {"kind": "term"}))
+    outside_results: List[Any] = []
+    sleeps = {s["site"]: 1 + (j % 3) for j, s in enumerate(SP["body"])}
     n_threads, n_calls = case["n_threads"], case["n_calls"]
     errs: List[str] = []
     barrier = threading.Barrier(n_threads)
@@ -282,11 +294,19 @@ def _stress(case: Dict[str, Any], res: CaseResult) -> None:
             barrier.wait(10)
             for i in range(n_calls):
                 a = [t * 1000 + i]
-                v = shared.dag(*a)
+                # node functions sleep a little (GIL released), so executions of different threads really overlap
+                with sched.Exec("free", sleeps=sleeps, watchdog=False):
+                    v = shared.dag(*a)
                 want = prog.ref_run(SP, a, prog.Ref())
                 if v != want:
                     errs.append(f"thread {t} call {i} args {a}: returned {v!r}, reference {want!r}")
                     return
+                if t == 0 and i % 3 == 0:
+                    # a decorated function called outside any DAG while the other threads are running DAGs
+                    try:
+                        outside_results.append(("returned", outside(i)))
+                    except TawaziUsageError:
+                        outside_results.append(("raised", None))
         except BaseException as e:  # noqa: BLE001
             errs.append(f"thread {t}: {type(e).__name__}: {str(e)[:200]}")
 
@@ -300,6 +320,13 @@ def _stress(case: Dict[str, Any], res: CaseResult) -> None:
         return
     if errs:
         res.viol("stress-value", errs[0])
+    if cfg_before == XNOutsideDAGCall.error:
+        bad = [r for r in outside_results if r[0] != "raised"]
+        if bad:
+            res.viol("outside-call", f"a decorated function called outside any DAG while other threads run DAGs gave {bad[0]!r} instead of raising TawaziUsageError ({len(bad)} of {len(outside_results)} calls)")
+    if tawazi.cfg.TAWAZI_EXECNODE_OUTSIDE_DAG_BEHAVIOR != cfg_before:
+        res.viol("configuration-changed", f"cfg.TAWAZI_EXECNODE_OUTSIDE_DAG_BEHAVIOR is {tawazi.cfg.TAWAZI_EXECNODE_OUTSIDE_DAG_BEHAVIOR!r} after the runs, it was {cfg_before!r}")
+        tawazi.cfg.TAWAZI_EXECNODE_OUTSIDE_DAG_BEHAVIOR = cfg_before
     res.evals = n_threads * n_calls
     res.nontrivial = True
     res.cls("stress")
